@@ -63,7 +63,19 @@ class C14(Prop):
             {"kind": "segment", "s": Fraction(0), "e": Fraction(10), "dur": Fraction(3), "hop": Fraction(3), "incl": True},
             {"kind": "segment", "s": Fraction(0), "e": Fraction(10), "dur": Fraction(2), "hop": Fraction(1), "incl": False},
         ]
-        return fixed + [self._case(rng) for _ in range(n)]
+        out = fixed + [self._case(rng) for _ in range(n)]
+        # history: the same clip (same uuid) was segmented before with other bounds — the clip was trimmed / extended /
+        # shifted by model_copy(update=...) or by assignment — and with the same duration, hop and flag
+        seq = []
+        for _ in range(n // 8):
+            c = self._case(rng)
+            if c["dur"] <= 0 or (c["hop"] is not None and c["hop"] <= 0):
+                continue
+            d = rng.choice([Fraction(1, 2), Fraction(3), Fraction(7, 4)])
+            how = rng.choice(["trim", "extend", "shift"])
+            ps, pe = {"trim": (c["s"], c["e"] + d), "extend": (c["s"], max(c["s"], c["e"] - d)), "shift": (c["s"] + d, c["e"] + d)}[how]
+            seq.append(dict(c, before=[ps, pe], via=rng.choice(["copy", "assign"])))
+        return out + seq
 
     def run(self, c):
         from soundevent import data
@@ -71,8 +83,17 @@ class C14(Prop):
         from soundevent.operations import segment_clip
 
         rec = data.Recording(path="a.wav", duration=1000, channels=1, samplerate=8000)
-        clip = data.Clip(recording=rec, start_time=float(c["s"]), end_time=float(c["e"]))
         hop = None if c["hop"] is None else float(c["hop"])
+        if c.get("before"):
+            clip0 = data.Clip(recording=rec, start_time=float(c["before"][0]), end_time=float(c["before"][1]))
+            guarded(lambda: list(segment_clip(clip0, float(c["dur"]), hop, include_incomplete=c["incl"])))
+            if c["via"] == "copy":
+                clip = clip0.model_copy(update={"start_time": float(c["s"]), "end_time": float(c["e"])})
+            else:
+                clip0.start_time, clip0.end_time = float(c["s"]), float(c["e"])
+                clip = clip0
+        else:
+            clip = data.Clip(recording=rec, start_time=float(c["s"]), end_time=float(c["e"]))
         r = guarded(lambda: list(segment_clip(clip, float(c["dur"]), hop, include_incomplete=c["incl"])))
         if r[0] != "ok":
             return {"res": ["err", r[1]], "msg": r[2]}
